@@ -149,8 +149,8 @@ structure Block where
   deriving Repr
 
 structure File where
-  /-- `nixfile.created_at` (an int: a writable session always has the attribute) -/
-  createdAt : Int
+  /-- `nixfile.created_at` (`none` = the attribute is missing: the read raises KeyError, which `check_file` catches) -/
+  createdAt : Option Int
   blocks : List Block
   sections : List Section
   deriving Repr
@@ -385,9 +385,10 @@ def blocksChecks : Nat → List Block → List (Key × List Msg)
   | _, [] => []
   | i, b :: rest => blockChecks i b ++ blocksChecks (i + 1) rest
 
-/-- `if not nixfile.created_at` -/
+/-- `if file_created_at is None` (repaired: the test was `not nixfile.created_at`, which reported a file dated at the
+epoch and raised KeyError for a missing attribute) -/
 def checkFileObj (f : File) : List Msg :=
-  if f.createdAt == 0 then [.plain .NoDate] else []
+  if f.createdAt.isNone then [.plain .NoDate] else []
 
 /-- one entry per object `check_file` visits, in visiting order -/
 def allChecks (f : File) : List (Key × List Msg) :=
